@@ -408,6 +408,14 @@ class World(object):
                 self.h[a["out"]] = ProvBundle(identifier=ident)
                 return none
             return run
+        if op == "RT":
+            import roundtrip
+            doc = self.h[a["h"]]
+
+            def run():
+                self.rt = roundtrip.run_rt(doc, a["fmt"], a["opts"], self.voc)
+                return none
+            return run
         if op == "IO":
             import iokinds
             doc = sample_doc(Vocab(self.voc_seed, a["variant"]), a["variant"])
@@ -550,6 +558,8 @@ class World(object):
         st = {"op": a, "exc": exc, "res": res, "post": self.observe(),
               "parents": self.parents, "reres": self.reres()}
         st["look"], st["typed"], st["copy"] = self.lookups()
+        if a["op"] == "RT":
+            st.update(self.rt)
         if a["op"] == "Save":
             sv = self.save
             st["exc"] = sv["exc"]
